@@ -55,7 +55,7 @@ def run_training_case(ctx, res, spec, lines, post):
     rng = random.Random(spec['seed'])
     system = sc.build_system(spec, listing=rng.sample(range(len(spec['comps'])), len(spec['comps'])))
     outs = [c['out'] for c in spec['comps']]
-    targets = rng.choice([None, [outs[-1]], rng.sample(outs, rng.randint(1, len(outs)))])
+    targets = rng.choice([None, [outs[-1]], [outs[0]], rng.sample(outs, rng.randint(1, len(outs)))])
     tg = targets or list(system.outputs().keys())
     nsteps = 10 if ctx.quick else 18
     num_refine = 40
@@ -112,6 +112,8 @@ def run_termination_case(ctx, res, spec, lines, post):
         np.random.seed(spec['seed'] % 2 ** 31)
         k = rng.randint(3, 7)
         kw = dict(num_refine=30)
+        if cause in ('exhaust', 'max_iter') and rng.random() < 0.6:
+            kw['targets'] = [spec['comps'][0]['out']]   # candidates of downstream components then have indicator exactly 0
         if cause == 'max_iter':
             kw.update(max_iter=k, max_tol=-np.inf)
         elif cause == 'exhaust':
